@@ -2,20 +2,18 @@
    of its module, and the executor's run over the queue of woken / spawned tasks. *)
 From Coq Require Import List Arith NArith Bool Lia Sorting.Sorted Permutation ZifyBool.
 From DesVerif Require Import CQueue.Model CQueue.Spec CQueue.SpecProps Timer.Driver Timer.QueueLemmas Timer.Inv
-  Timer.Futures Timer.FutureLaws Timer.Model Timer.Compose Timer.EvSet Timer.Frag Timer.E2EInv.
+  Timer.Futures Timer.FutureLaws Timer.TempOps Timer.Model Timer.Compose Timer.EvSet Timer.Frag Timer.E2EInv.
 Import ListNotations.
 Open Scope N_scope.
 
-(* what is known of the tasks that are about to be polled at instant t in module m *)
+(* what is known of the tasks that are about to be polled at instant t in module m: spawned
+   now, or blocked on a future that completes exactly now *)
 Definition runnable (ts : list task) (t m : N) (k : nat) : Prop :=
   exists tk, nth_error ts k = Some tk /\ t_mod tk = m /\
-    ((unspawned tk /\ t_start tk = t) \/ exists s, blocked_sleep tk = Some s /\ deadline s = t).
+    ((unspawned tk /\ t_start tk = t) \/ exists a, t_cur tk = Some a /\ aw_wake a = t).
 
 Lemma waker_of_cons own id k id' : waker_of ((id, k) :: own) id' = if id =? id' then Some k else waker_of own id'.
 Proof. reflexivity. Qed.
-
-Lemma blocked_sleep_cur tk s : blocked_sleep tk = Some s -> t_cur tk = Some (AwSleep s).
-Proof. unfold blocked_sleep. destruct (t_cur tk) as [[]|]; try discriminate. intros H; injection H as ->; reflexivity. Qed.
 
 Lemma apply_ops_rest_nw ops : forall dr, next_wakeup (apply_ops ops dr) = next_wakeup dr /\ scheduled (apply_ops ops dr) = scheduled dr.
 Proof.
@@ -23,37 +21,60 @@ Proof.
   destruct (IH (apply_op dr o)) as [H1 H2]. destruct (apply_op_rest dr o) as [E1 E2]. rewrite H1, H2, E1, E2. split; reflexivity.
 Qed.
 
-Lemma q_add_alllive id d' p : (forall d es, In (d, es) p -> es <> []) ->
-  forall d es, In (d, es) (q_add id d' p) -> es <> [].
+(* the wakers noted for the Sleeps a task holds when it blocks *)
+Lemma note_polls_held k before ss : forall own, Forall (fun s => handle s <> None) ss ->
+  forall id, waker_of (note_polls true k before ss own) id = if existsb (N.eqb id) (map sid ss) then Some k else waker_of own id.
 Proof.
-  induction p as [|[t0 es0] r IH]; intros Ha d es Hin; cbn [q_add] in Hin.
-  - destruct Hin as [H|[]]. injection H as _ H2. rewrite <- H2. discriminate.
-  - destruct (d' <? t0).
-    + destruct Hin as [H|Hin]; [injection H as _ H2; rewrite <- H2; discriminate|exact (Ha d es Hin)].
-    + destruct (d' =? t0).
-      * destruct Hin as [H|Hin]; [|exact (Ha d es (or_intror Hin))]. injection H as _ H2. rewrite <- H2.
-        intros Hc. apply app_eq_nil in Hc. destruct Hc as [_ Hc]. discriminate.
-      * destruct Hin as [H|Hin]; [exact (Ha d es (or_introl H))|].
-        apply (IH (fun d1 es1 H1 => Ha d1 es1 (or_intror H1)) d es Hin).
+  unfold note_polls. induction ss as [|s r IH]; intros own Hh id; cbn [fold_left map existsb]; [reflexivity|].
+  inversion Hh as [|? ? Hs Hr]; subst. rewrite (IH _ Hr). unfold note_poll.
+  destruct (handle s) as [h|]; [|contradiction Hs; reflexivity]. rewrite andb_false_r. rewrite waker_of_cons.
+  destruct (existsb (N.eqb id) (map sid r)); [rewrite orb_true_r; reflexivity|]. rewrite orb_false_r.
+  rewrite N.eqb_sym. reflexivity.
+Qed.
+
+Lemma new_at_in a x id : In id (new_at a x) <-> exists s, In s (aw_held a) /\ sid s = id /\ deadline s = x.
+Proof.
+  unfold new_at. rewrite in_map_iff. split.
+  - intros (s & E & Hin). apply filter_In in Hin. destruct Hin as [Hin Hd]. exists s. repeat split; [exact Hin|exact E|lia].
+  - intros (s & Hin & E & Hd). exists s. split; [exact E|]. apply filter_In. split; [exact Hin|lia].
+Qed.
+
+Lemma NoDup_map_filter {A B} (f : A -> B) (g : A -> bool) l : NoDup (map f l) -> NoDup (map f (filter g l)).
+Proof.
+  induction l as [|a r IH]; cbn [map filter]; intros H; [constructor|]. inversion H as [|? ? Ha Hr]; subst.
+  destruct (g a); [|exact (IH Hr)]. cbn [map]. constructor; [|exact (IH Hr)].
+  intros Hin. apply Ha. apply in_map_iff in Hin. destruct Hin as (x & E & Hx). apply filter_In in Hx. apply in_map_iff. exists x. split; [exact E|exact (proj1 Hx)].
+Qed.
+
+Lemma NoDup_app_intro {A} (l1 l2 : list A) : NoDup l1 -> NoDup l2 -> (forall x, In x l1 -> In x l2 -> False) -> NoDup (l1 ++ l2).
+Proof.
+  induction l1 as [|a r IH]; intros H1 H2 Hd; cbn [app]; [exact H2|]. inversion H1 as [|? ? Ha Hr]; subst. constructor.
+  - intros Hin. apply in_app_or in Hin. destruct Hin as [Hin|Hin]; [exact (Ha Hin)|exact (Hd a (or_introl eq_refl) Hin)].
+  - apply IH; [exact Hr|exact H2|]. intros x Hx1 Hx2. exact (Hd x (or_intror Hx1) Hx2).
 Qed.
 
 Section PollStep.
-  Variables (ts0 ts : list task) (own : wakers) (nid : N) (dr : driver) (t m : N) (k : nat) (r : list nat).
-  Variables (tk tk0 : task) (L : list N) (Sx : list step) (o : list N) (b : option (sleep * list step)) (n : N) (dr' : driver).
+  (* [drc]: the driver after the future the task was blocked on has completed (for a task that
+     is spawned: the driver as it is); it holds no entry of task k any more *)
+  Variables (ts0 ts : list task) (own : wakers) (nid : N) (drc : driver) (t m : N) (k : nat) (r : list nat).
+  Variables (tk tk0 : task) (L : list N) (Sx : list step) (o : list N) (b : option (aw * list step)) (n : N) (dr' : driver).
   Variable before : list N.
 
   Hypothesis Hbase : Base ts0 ts own nid.
   Hypothesis Hnd : NoDup (k :: r).
-  Hypothesis Hmid : Mid t dr.
-  Hypothesis Htie : Tie ts own nid (k :: r) m dr.
+  Hypothesis Hmid : Mid t drc.
+  Hypothesis Hte : forall k' tk1 s, k' <> k -> nth_error ts k' = Some tk1 -> In s (held tk1) -> t_mod tk1 = m ->
+                   (~ In k' r \/ t < deadline s) -> In (sid s) (ents_at (deadline s) (pending drc)).
+  Hypothesis Htt : forall d id, In id (ents_at d (pending drc)) ->
+                   exists k' tk1 s, k' <> k /\ nth_error ts k' = Some tk1 /\ In s (held tk1) /\ t_mod tk1 = m /\ sid s = id /\ deadline s = d.
+  Hypothesis Htn : forall d, NoDup (ents_at d (pending drc)).
   Hypothesis Hk : nth_error ts k = Some tk.
   Hypothesis Hk0 : nth_error ts0 k = Some tk0.
   Hypothesis Hmod : t_mod tk = m.
   Hypothesis Hmod0 : t_mod tk = t_mod tk0.
   Hypothesis Hst0 : t_start tk = t_start tk0.
   Hypothesis HS : Forall frag_step Sx.
-  Hypothesis Hrun : frag_run t nid Sx dr = (o, b, n, dr').
-  Hypothesis Hfr : forall x id, In id (ents_at x (pending dr)) -> id < nid.
+  Hypothesis Hrun : frag_run t nid Sx drc = (o, b, n, dr').
   Hypothesis Hexp : expected tk0 = L ++ exp_run t Sx.
 
   Let tk' := {| t_mod := t_mod tk; t_start := t_start tk; t_steps := fr_steps b; t_cur := fr_cur b; t_iv := None;
@@ -61,38 +82,56 @@ Section PollStep.
   Let ts' := set_nth k tk' ts.
   Let own' := note_polls true k before (held_sleeps (fr_cur b) None ++ []) own.
 
-  Lemma ps_cases : nid <= n /\
-    ((b = None /\ exp_run t Sx = o) \/
-     exists s st rest, b = Some (s, st :: rest) /\ Forall frag_step rest /\
-        exp_run t Sx = o ++ deadline s :: exp_run (deadline s) rest /\
-        t < deadline s /\ handle s = Some (deadline s) /\ nid <= sid s /\ sid s < n).
+  Lemma ps_fresh : forall x id, In id (ents_at x (pending drc)) -> id < nid.
   Proof.
-    pose proof (frag_run_spec t Sx HS nid dr Hmid Hfr) as H. rewrite Hrun in H. revert H. generalize b. intros b0 (Hn & _ & _ & Hb).
-    split; [exact Hn|]. destruct b0 as [[s l]|]; [right|left; split; [reflexivity|exact Hb]].
-    destruct Hb as (st & rest & -> & H). exists s, st, rest. split; [reflexivity|exact H].
+    intros x id Hin. destruct (Htt x id Hin) as (k' & tk1 & s & _ & Hk' & Hs & _ & E & _). rewrite <- E.
+    exact (proj1 (b_ids _ _ _ _ Hbase k' tk1 s Hk' Hs)).
   Qed.
 
-  Lemma ps_acts : acts t dr dr'.
-  Proof. pose proof (frag_run_spec t Sx HS nid dr Hmid Hfr) as H. rewrite Hrun in H. exact (proj1 (proj2 H)). Qed.
+  Lemma ps_cases : nid <= n /\
+    ((b = None /\ exp_run t Sx = o) \/
+     exists a st rest, b = Some (a, st :: rest) /\ Forall frag_step rest /\
+        exp_run t Sx = o ++ aw_rec a ++ exp_run (aw_wake a) rest /\ blocked_ok t nid n a).
+  Proof.
+    pose proof (frag_run_spec t Sx HS nid drc Hmid ps_fresh) as H. rewrite Hrun in H. revert H. generalize b. intros b0 (Hn & _ & _ & Hb).
+    split; [exact Hn|]. destruct b0 as [[a l]|]; [right|left; split; [reflexivity|exact Hb]].
+    destruct Hb as (st & rest & -> & H). exists a, st, rest. split; [reflexivity|exact H].
+  Qed.
+
+  Lemma ps_acts : acts t drc dr'.
+  Proof. pose proof (frag_run_spec t Sx HS nid drc Hmid ps_fresh) as H. rewrite Hrun in H. exact (proj1 (proj2 H)). Qed.
 
   Lemma ps_ents x : ents_at x (pending dr') =
-    ents_at x (pending dr) ++ match b with Some (s, _) => if x =? deadline s then [sid s] else [] | None => [] end.
-  Proof. pose proof (frag_run_spec t Sx HS nid dr Hmid Hfr) as H. rewrite Hrun in H. exact (proj1 (proj2 (proj2 H)) x). Qed.
+    ents_at x (pending drc) ++ match b with Some (a, _) => new_at a x | None => [] end.
+  Proof. pose proof (frag_run_spec t Sx HS nid drc Hmid ps_fresh) as H. rewrite Hrun in H. exact (proj1 (proj2 (proj2 H)) x). Qed.
 
-  Lemma ps_own : own' = match b with Some (s, _) => (sid s, k) :: own | None => own end.
+  Lemma ps_held : held tk' = match b with Some (a, _) => aw_held a | None => [] end.
+  Proof. unfold held, tk'. cbn [t_cur t_iv]. generalize b. intros [[a l]|]; reflexivity. Qed.
+
+  Lemma ps_held_in s : In s (held tk') ->
+    exists a st rest, b = Some (a, st :: rest) /\ In s (aw_held a) /\ t < deadline s /\ handle s = Some (deadline s) /\ nid <= sid s /\ sid s < n.
   Proof.
-    unfold own', note_polls. destruct ps_cases as (_ & [(Eb & _)|(s & st & rest & Eb & _ & _ & _ & Hh & _)]); rewrite Eb;
-      cbn [fr_cur held_sleeps app fold_left]; [reflexivity|].
-    unfold note_poll. rewrite Hh, andb_false_r. reflexivity.
+    rewrite ps_held. destruct ps_cases as (_ & [(Eb & _)|(a & st & rest & Eb & _ & _ & (_ & _ & _ & Hall))]); rewrite Eb; [intros []|].
+    intros Hin. rewrite Forall_forall in Hall. destruct (Hall s Hin) as (H1 & H2 & H3 & H4). exists a, st, rest. repeat split; assumption.
+  Qed.
+
+  Lemma ps_waker id : waker_of own' id =
+    if existsb (N.eqb id) (map sid (held tk')) then Some k else waker_of own id.
+  Proof.
+    unfold own'. rewrite app_nil_r. rewrite ps_held.
+    destruct ps_cases as (_ & [(Eb & _)|(a & st & rest & Eb & _ & _ & (_ & _ & _ & Hall))]); rewrite Eb; cbn [fr_cur held_sleeps].
+    - reflexivity.
+    - apply note_polls_held. eapply Forall_impl; [|exact Hall]. cbn beta. intros s (_ & H & _). rewrite H. discriminate.
   Qed.
 
   Lemma ps_tstate : tstate tk0 tk'.
   Proof.
-    unfold tk'. destruct ps_cases as (_ & [(Eb & Ho)|(s & st & rest & Eb & Hf & He & Ht & Hh & _)]); rewrite Eb.
+    unfold tk'. destruct ps_cases as (_ & [(Eb & Ho)|(a & st & rest & Eb & Hf & He & (Hk1 & Hw & Hndp & Hall))]); rewrite Eb.
     - apply TDn; cbn [t_mod t_start t_steps t_cur t_iv t_fin t_log fr_steps fr_cur]; try assumption; try reflexivity.
       rewrite Hexp, Ho. reflexivity.
-    - apply (TBl _ _ s st rest); cbn [t_mod t_start t_steps t_cur t_iv t_fin t_log fr_steps fr_cur]; try assumption; try reflexivity.
-      rewrite Hexp, He, app_assoc. reflexivity.
+    - apply (TBl _ _ a st rest); cbn [t_mod t_start t_steps t_cur t_iv t_fin t_log fr_steps fr_cur]; try assumption; try reflexivity.
+      + eapply Forall_impl; [|exact Hall]. cbn beta. intros s (_ & H & _). exact H.
+      + rewrite Hexp, He, app_assoc. reflexivity.
   Qed.
 
   Lemma ps_nth_other k' : k' <> k -> nth_error ts' k' = nth_error ts k'.
@@ -101,73 +140,69 @@ Section PollStep.
   Lemma ps_nth_same : nth_error ts' k = Some tk'.
   Proof. unfold ts'. eapply nth_set_nth_same. exact Hk. Qed.
 
-  (* the new task is blocked iff the poll blocked, on the Sleep the poll created *)
-  Lemma ps_blocked' s : blocked_sleep tk' = Some s ->
-    exists st rest, b = Some (s, st :: rest) /\ t < deadline s /\ nid <= sid s /\ sid s < n.
-  Proof.
-    unfold tk', blocked_sleep. cbn [t_cur].
-    destruct ps_cases as (_ & [(Eb & _)|(s' & st & rest & Eb & _ & _ & Ht & _ & H1 & H2)]); rewrite Eb; cbn [fr_cur]; [discriminate|].
-    intros H; injection H as <-. exists st, rest. repeat split; assumption.
-  Qed.
-
   Lemma ps_base : Base ts0 ts' own' n.
   Proof.
-    destruct Hbase as [Hst Hin Hids Hdis]. destruct ps_cases as (Hn & _). constructor.
+    destruct Hbase as [Hst Hin Hids Hdis]. destruct ps_cases as (Hn & _).
+    assert (Hold : forall k' tk1 s, k' <> k -> nth_error ts' k' = Some tk1 -> In s (held tk1) -> sid s < nid /\ waker_of own (sid s) = Some k').
+    { intros k' tk1 s Hne Hk' Hs. rewrite (ps_nth_other k' Hne) in Hk'. exact (Hids k' tk1 s Hk' Hs). }
+    constructor.
     - unfold ts'. eapply Forall2_set_nth; [exact Hst|exact Hk0|exact ps_tstate].
     - exact Hin.
-    - intros k' tk1 s Hk' Hbl. rewrite ps_own. destruct (Nat.eq_dec k' k) as [->|Hne].
-      + rewrite ps_nth_same in Hk'. injection Hk' as <-. destruct (ps_blocked' s Hbl) as (st & rest & Eb & _ & _ & Hlt).
-        rewrite Eb. split; [exact Hlt|]. rewrite waker_of_cons, N.eqb_refl. reflexivity.
-      + rewrite (ps_nth_other k' Hne) in Hk'. destruct (Hids k' tk1 s Hk' Hbl) as [H1 H2]. split; [lia|].
-        destruct ps_cases as (_ & [(Eb & _)|(s' & st & rest & Eb & _ & _ & _ & _ & Hge & _)]); rewrite Eb; [exact H2|].
-        rewrite waker_of_cons. replace (sid s' =? sid s) with false by lia. exact H2.
+    - intros k' tk1 s Hk' Hs. rewrite ps_waker. destruct (Nat.eq_dec k' k) as [->|Hne].
+      + rewrite ps_nth_same in Hk'. injection Hk' as <-. destruct (ps_held_in s Hs) as (a & st & rest & _ & _ & _ & _ & _ & Hlt).
+        split; [exact Hlt|]. replace (existsb (N.eqb (sid s)) (map sid (held tk'))) with true; [reflexivity|].
+        symmetry. apply existsb_exists. exists (sid s). split; [apply in_map; exact Hs|apply N.eqb_refl].
+      + destruct (Hold k' tk1 s Hne Hk' Hs) as [H1 H2]. split; [lia|].
+        replace (existsb (N.eqb (sid s)) (map sid (held tk'))) with false; [exact H2|].
+        symmetry. apply not_true_is_false. intros Hex. apply existsb_exists in Hex. destruct Hex as (i & Hi & E).
+        apply in_map_iff in Hi. destruct Hi as (s' & <- & Hs'). destruct (ps_held_in s' Hs') as (_ & _ & _ & _ & _ & _ & _ & Hge & _). lia.
     - intros k1 k2 tk1 tk2 s1 s2 H1 H2 B1 B2 E.
-      assert (Hfresh : forall k' tk1 s, k' <> k -> nth_error ts' k' = Some tk1 -> blocked_sleep tk1 = Some s -> sid s < nid).
-      { intros k' tk3 s Hne Hk' Hbl. rewrite (ps_nth_other k' Hne) in Hk'. exact (proj1 (Hids k' tk3 s Hk' Hbl)). }
-      assert (Hnew : forall tk1 s, nth_error ts' k = Some tk1 -> blocked_sleep tk1 = Some s -> nid <= sid s).
-      { intros tk3 s Hk' Hbl. rewrite ps_nth_same in Hk'. injection Hk' as <-.
-        destruct (ps_blocked' s Hbl) as (st & rest & _ & _ & Hge & _). exact Hge. }
       destruct (Nat.eq_dec k1 k) as [->|N1], (Nat.eq_dec k2 k) as [->|N2]; [reflexivity| | |].
-      + pose proof (Hnew _ _ H1 B1). pose proof (Hfresh _ _ _ N2 H2 B2). lia.
-      + pose proof (Hnew _ _ H2 B2). pose proof (Hfresh _ _ _ N1 H1 B1). lia.
+      + rewrite ps_nth_same in H1. injection H1 as <-. destruct (ps_held_in s1 B1) as (_ & _ & _ & _ & _ & _ & _ & Hge & _).
+        pose proof (proj1 (Hold k2 tk2 s2 N2 H2 B2)). lia.
+      + rewrite ps_nth_same in H2. injection H2 as <-. destruct (ps_held_in s2 B2) as (_ & _ & _ & _ & _ & _ & _ & Hge & _).
+        pose proof (proj1 (Hold k1 tk1 s1 N1 H1 B1)). lia.
       + rewrite (ps_nth_other k1 N1) in H1. rewrite (ps_nth_other k2 N2) in H2. exact (Hdis _ _ _ _ _ _ H1 H2 B1 B2 E).
   Qed.
 
   Lemma ps_mid : Mid t dr'.
   Proof. exact (acts_mid _ _ _ ps_acts Hmid). Qed.
 
-  Lemma ps_tie : Tie ts' own' n r m dr'.
+  Lemma ps_tie : Tie ts' t r m dr'.
   Proof.
-    destruct Htie as [He Ht].
     assert (Hkr : ~ In k r) by (inversion Hnd; assumption).
     constructor.
-    - intros k' tk1 s Hk' Hbl Hm Hq. rewrite ps_ents. destruct (Nat.eq_dec k' k) as [->|Hne].
-      + rewrite ps_nth_same in Hk'. injection Hk' as <-. destruct (ps_blocked' s Hbl) as (st & rest & Eb & _).
-        rewrite Eb, N.eqb_refl. apply in_or_app. right. left. reflexivity.
-      + rewrite (ps_nth_other k' Hne) in Hk'. apply in_or_app. left.
-        apply (He k' tk1 s Hk' Hbl Hm). intros [E|E]; [apply Hne; symmetry; exact E|exact (Hq E)].
+    - intros k' tk1 s Hk' Hs Hm Hq. rewrite ps_ents. destruct (Nat.eq_dec k' k) as [->|Hne].
+      + rewrite ps_nth_same in Hk'. injection Hk' as <-. destruct (ps_held_in s Hs) as (a & st & rest & Eb & Hin & _).
+        rewrite Eb. apply in_or_app. right. apply new_at_in. exists s. repeat split; [exact Hin].
+      + rewrite (ps_nth_other k' Hne) in Hk'. apply in_or_app. left. exact (Hte k' tk1 s Hne Hk' Hs Hm Hq).
     - intros d id Hin. rewrite ps_ents in Hin. apply in_app_or in Hin. destruct Hin as [Hold|Hnew].
-      + destruct (Ht d id Hold) as (k' & tk1 & s & Hk' & Hbl & Hm & Hq & E1 & E2).
-        assert (Hne : k' <> k) by (intros ->; apply Hq; left; reflexivity).
-        exists k', tk1, s. rewrite (ps_nth_other k' Hne). repeat split; try assumption.
-        intros E; apply Hq; right; exact E.
-      + destruct ps_cases as (_ & [(Eb & _)|(s & st & rest & Eb & _)]); rewrite Eb in Hnew; [contradiction|].
-        destruct (d =? deadline s) eqn:E; [|contradiction]. destruct Hnew as [<-|[]].
-        exists k, tk', s. rewrite ps_nth_same. unfold tk', blocked_sleep. cbn [t_cur t_mod]. rewrite Eb. cbn [fr_cur].
-        repeat split; try assumption; try reflexivity. lia.
+      + destruct (Htt d id Hold) as (k' & tk1 & s & Hne & Hk' & Hs & Hm & E1 & E2).
+        exists k', tk1, s. rewrite (ps_nth_other k' Hne). repeat split; assumption.
+      + destruct ps_cases as (_ & [(Eb & _)|(a & st & rest & Eb & _)]); rewrite Eb in Hnew; [contradiction|].
+        apply new_at_in in Hnew. destruct Hnew as (s & Hs & E1 & E2).
+        exists k, tk', s. rewrite ps_nth_same, ps_held, Eb. repeat split; try assumption; try (unfold tk'; cbn [t_mod]; exact Hmod).
+    - intros d. rewrite ps_ents.
+      destruct ps_cases as (_ & [(Eb & _)|(a & st & rest & Eb & _ & _ & (_ & _ & Hndp & Hall))]); rewrite Eb; [rewrite app_nil_r; apply Htn|].
+      apply NoDup_app_intro; [apply Htn|unfold new_at; apply NoDup_map_filter; exact Hndp|].
+      intros id H1 H2. pose proof (ps_fresh d id H1). apply new_at_in in H2. destruct H2 as (s & Hs & <- & _).
+      rewrite Forall_forall in Hall. destruct (Hall s Hs) as (_ & _ & Hge & _). lia.
   Qed.
 
-  Lemma ps_live : NwLive dr -> NwLive dr'.
+  Lemma ps_live : NwLive drc -> NwLive dr'.
   Proof.
     intros Hn w0 Hw. destruct ps_acts as (ops & _ & Eq). rewrite Eq in Hw.
-    rewrite (proj1 (apply_ops_rest_nw ops dr)) in Hw. pose proof (Hn w0 Hw) as Hne.
+    rewrite (proj1 (apply_ops_rest_nw ops drc)) in Hw. pose proof (Hn w0 Hw) as Hne.
     rewrite ps_ents. intros Hc. apply app_eq_nil in Hc. exact (Hne (proj1 Hc)).
   Qed.
+
+  Lemma ps_nw : next_wakeup dr' = next_wakeup drc.
+  Proof. destruct ps_acts as (ops & _ & Eq). rewrite Eq. exact (proj1 (apply_ops_rest_nw ops drc)). Qed.
 
   Lemma ps_spawned : ~ unspawned tk'.
   Proof.
     unfold tk', unspawned. cbn [t_cur t_fin].
-    destruct ps_cases as (_ & [(Eb & _)|(s & st & rest & Eb & _)]); rewrite Eb; cbn [fr_cur fr_steps]; intros [H1 H2]; discriminate.
+    destruct ps_cases as (_ & [(Eb & _)|(a & st & rest & Eb & _)]); rewrite Eb; cbn [fr_cur fr_steps]; intros [H1 H2]; discriminate.
   Qed.
 
   Lemma ps_runnable k' : In k' r -> runnable ts t m k' -> runnable ts' t m k'.
@@ -192,18 +227,14 @@ Proof.
   - fold (work r) in *. fold (work (set_nth k tk' r)). pose proof (IH k tk tk' Hk). lia.
 Qed.
 
-Lemma frag_run_len now steps : forall nid dr, (length (fr_steps (snd (fst (fst (frag_run now nid steps dr))))) <= length steps)%nat.
+Lemma frag_run_len t0 steps : forall nid dr, (length (fr_steps (snd (fst (fst (frag_run t0 nid steps dr))))) <= length steps)%nat.
 Proof.
   induction steps as [|st r IH]; intros nid dr; cbn [frag_run]; [cbn; lia|].
-  destruct st; cbn [fst snd fr_steps length]; try lia.
-  - destruct (now <? dl_of now (SSleep d)); cbn [fst snd fr_steps length]; [lia|].
-    specialize (IH (nid + 1) (prep_drv now nid (SSleep d) dr)). destruct (frag_run now (nid + 1) r _) as [[[o b] n] d']. cbn [fst snd] in *. lia.
-  - destruct (now <? dl_of now (SSleepUntil t)); cbn [fst snd fr_steps length]; [lia|].
-    specialize (IH (nid + 1) (prep_drv now nid (SSleepUntil t) dr)). destruct (frag_run now (nid + 1) r _) as [[[o b] n] d']. cbn [fst snd] in *. lia.
-  - destruct (now <? dl_of now (SReset polled d1 d2)); cbn [fst snd fr_steps length]; [lia|].
-    specialize (IH (nid + 1) (prep_drv now nid (SReset polled d1 d2) dr)). destruct (frag_run now (nid + 1) r _) as [[[o b] n] d']. cbn [fst snd] in *. lia.
-  - specialize (IH (nid + 1) (prep_drv now nid (SDropSleep d) dr)). destruct (frag_run now (nid + 1) r _) as [[[o b] n] d']. cbn [fst snd] in *. lia.
-  - specialize (IH nid dr). destruct (frag_run now nid r dr) as [[[o b] n] d']. cbn [fst snd] in *. lia.
+  destruct st as [d|t|d v| | | | |polled d1 d2|d| | | | | |]; cbn [fst snd fr_steps length]; try lia;
+  try (destruct v as [x|]; cbn [fst snd fr_steps length]; try lia);
+  try match goal with |- context [if ?c then _ else _] => destruct c; cbn [fst snd fr_steps length]; try lia end;
+  match goal with IHx : forall _ _, _ |- context [frag_run _ ?n0 _ ?d0] =>
+    specialize (IHx n0 d0); destruct (frag_run t0 n0 r d0) as [[[o b] n'] d']; cbn [fst snd] in *; lia end.
 Qed.
 
 (* ---- inside an event of module m at instant t, with [q] still to be polled ---- *)
@@ -213,8 +244,10 @@ Record MInv (ts0 : list task) (t m : N) (q : list nat) (w : world) : Prop := {
   mi_nodup : NoDup q;
   mi_run : forall k, In k q -> runnable (w_tasks w) t m k;
   mi_mid : Mid t (drv_of w m);
-  mi_tie : Tie (w_tasks w) (w_owner w) (w_nid w) q m (drv_of w m);
-  mi_live : NwLive (drv_of w m) }.
+  mi_tie : Tie (w_tasks w) t q m (drv_of w m);
+  mi_live : NwLive (drv_of w m);
+  (* a task is woken only by a due timer, and then next_wakeup was due as well: it has been cleared *)
+  mi_nwq : forall k tk a, In k q -> nth_error (w_tasks w) k = Some tk -> t_cur tk = Some a -> next_wakeup (drv_of w m) = None }.
 
 Lemma poll_task_eq wfix now m k w tk steps cur iv dr nid lg sw mail :
   nth_error (w_tasks w) k = Some tk -> t_fin tk = false ->
@@ -236,19 +269,85 @@ Qed.
 
 Lemma tstate_unspawned tk0 tk : tstate tk0 tk -> unspawned tk -> tk = tk0.
 Proof.
-  intros [->|s st rest _ _ _ _ Hc _ _ _ _|_ _ _ _ _ Hf _] [Hc' Hf']; [reflexivity|rewrite Hc in Hc'; discriminate|rewrite Hf in Hf'; discriminate].
+  intros [->|a st rest _ _ _ _ Hc _ _ _ _ _ _|_ _ _ _ _ Hf _] [Hc' Hf']; [reflexivity|rewrite Hc in Hc'; discriminate|rewrite Hf in Hf'; discriminate].
 Qed.
 
-Lemma tstate_blocked tk0 tk s : tstate tk0 tk -> init_ok tk0 -> blocked_sleep tk = Some s ->
+Lemma tstate_blocked tk0 tk a : tstate tk0 tk -> init_ok tk0 -> t_cur tk = Some a ->
   exists st rest, t_mod tk = t_mod tk0 /\ t_start tk = t_start tk0 /\ t_steps tk = st :: rest /\ Forall frag_step rest /\
-    t_cur tk = Some (AwSleep s) /\ t_iv tk = None /\ t_fin tk = false /\
-    expected tk0 = t_log tk ++ deadline s :: exp_run (deadline s) rest.
+    t_iv tk = None /\ t_fin tk = false /\ aw_kind a /\ Forall (fun s => handle s = Some (deadline s)) (aw_held a) /\
+    NoDup (map sid (aw_held a)) /\ held tk = aw_held a /\
+    expected tk0 = t_log tk ++ aw_rec a ++ exp_run (aw_wake a) rest.
 Proof.
-  intros H (_ & I2 & _) Hb. pose proof (blocked_sleep_cur _ _ Hb) as Hc.
-  destruct H as [->|s' st rest H1 H2 H3 H4 H5 H6 H7 H8 H9|_ _ _ H4 _ _ _].
+  intros H (_ & I2 & _) Hc.
+  destruct H as [->|a' st rest H1 H2 H3 H4 H5 H6 H7 H8 H9 H10 H11|_ _ _ H4 _ _ _].
   - rewrite I2 in Hc. discriminate.
-  - rewrite H5 in Hc. injection Hc as ->. exists st, rest. repeat split; assumption.
+  - rewrite H5 in Hc. injection Hc as ->. exists st, rest. repeat split; try assumption. unfold held. rewrite H5, H6. reflexivity.
   - rewrite H4 in Hc. discriminate.
+Qed.
+
+(* the future a woken task was blocked on completes: its Sleep that is still registered is dropped *)
+Lemma woken_done ts0 ts own nid t m k r tk a dr :
+  Base ts0 ts own nid -> NoDup (k :: r) -> Mid t dr -> Tie ts t (k :: r) m dr ->
+  nth_error ts k = Some tk -> t_mod tk = m -> t_cur tk = Some a -> aw_kind a -> held tk = aw_held a ->
+  Forall (fun s => handle s = Some (deadline s)) (aw_held a) -> NoDup (map sid (aw_held a)) -> aw_wake a = t ->
+  let drc := aw_done t a dr in
+  acts t dr drc /\
+  (forall k' tk1 s, k' <> k -> nth_error ts k' = Some tk1 -> In s (held tk1) -> t_mod tk1 = m ->
+     (~ In k' r \/ t < deadline s) -> In (sid s) (ents_at (deadline s) (pending drc))) /\
+  (forall d id, In id (ents_at d (pending drc)) ->
+     exists k' tk1 s, k' <> k /\ nth_error ts k' = Some tk1 /\ In s (held tk1) /\ t_mod tk1 = m /\ sid s = id /\ deadline s = d) /\
+  (forall d, NoDup (ents_at d (pending drc))).
+Proof.
+  intros Hbase Hnd Hmid [He Ht Hn] Hk Hmod Hc Hkind Hheld Hh Hndp Hw. cbn zeta.
+  (* entries of task k that are still in the driver have a deadline after t *)
+  assert (Hown : forall d id, In id (ents_at d (pending dr)) -> forall s, In s (held tk) -> sid s = id -> deadline s = d /\ t < d).
+  { intros d id Hin s Hs E. destruct (Ht d id Hin) as (k' & tk1 & s' & Hk' & Hs' & _ & E1 & E2).
+    assert (k' = k) by (apply (b_distinct _ _ _ _ Hbase k' k tk1 tk s' s Hk' Hk Hs' Hs); congruence). subst k'.
+    rewrite Hk in Hk'. injection Hk' as <-.
+    assert (s' = s).
+    { rewrite Hheld in Hs, Hs'. clear -Hndp Hs Hs' E E1. induction (aw_held a) as [|x l IH]; [contradiction|].
+      cbn [map] in Hndp. inversion Hndp as [|? ? Hx Hl]; subst. destruct Hs as [->|Hs], Hs' as [->|Hs']; try reflexivity.
+      - exfalso. apply Hx. apply in_map_iff. exists s'. split; [congruence|exact Hs'].
+      - exfalso. apply Hx. apply in_map_iff. exists s. split; [congruence|exact Hs].
+      - exact (IH Hl Hs Hs'). }
+    subst s'. split; [exact E2|]. assert (Hne : ents_at d (pending dr) <> []) by (intros E0; rewrite E0 in Hin; contradiction).
+    exact (mid_future _ _ Hmid d _ (ents_at_in _ _ Hne) Hne). }
+  assert (Hother : forall d id, In id (ents_at d (pending dr)) -> (forall s, In s (held tk) -> sid s <> id) ->
+            exists k' tk1 s, k' <> k /\ nth_error ts k' = Some tk1 /\ In s (held tk1) /\ t_mod tk1 = m /\ sid s = id /\ deadline s = d).
+  { intros d id Hin Hno. destruct (Ht d id Hin) as (k' & tk1 & s' & Hk' & Hs' & Hm' & E1 & E2).
+    exists k', tk1, s'. repeat split; try assumption. intros ->. rewrite Hk in Hk'. injection Hk' as <-. exact (Hno s' Hs' E1). }
+  assert (Hkeep : forall k' tk1 s, k' <> k -> nth_error ts k' = Some tk1 -> In s (held tk1) -> forall s0, In s0 (held tk) -> sid s <> sid s0).
+  { intros k' tk1 s Hne Hk' Hs s0 Hs0 E. apply Hne. exact (b_distinct _ _ _ _ Hbase k' k tk1 tk s s0 Hk' Hk Hs Hs0 E). }
+  destruct a as [s|v dl| | | | | | |]; try contradiction.
+  - (* a single Sleep: it was popped; nothing of task k is left in the driver *)
+    cbn [aw_done]. split; [apply acts_refl|]. split; [|split; [|exact Hn]].
+    + intros k' tk1 s1 Hne Hk' Hs1 Hm1 Hq. apply (He k' tk1 s1 Hk' Hs1 Hm1). destruct Hq as [Hq|Hq]; [left|right; exact Hq].
+      intros [E|E]; [apply Hne; symmetry; exact E|exact (Hq E)].
+    + intros d id Hin. apply (Hother d id Hin). intros s0 Hs0 E. destruct (Hown d id Hin s0 Hs0 E) as [E2 Hlt].
+      rewrite Hheld in Hs0. cbn [aw_held held_sleeps] in Hs0. destruct Hs0 as [<-|[]]. cbn [aw_wake] in Hw. lia.
+  - destruct v as [s| | |]; try contradiction. cbn [aw_wake] in Hw. cbn [aw_held held_sleeps] in *.
+    (* the Sleep that did not fire is removed by its id; [sr]: that Sleep *)
+    set (sr := if deadline s <=? t then dl else s).
+    assert (Hdone : aw_done t (AwTimeout (VSleep s) dl) dr = drop_entry (sid sr) (deadline sr) dr) by (unfold sr; cbn [aw_done]; destruct (deadline s <=? t); reflexivity).
+    rewrite Hdone. assert (Hsr : In sr (held tk)) by (rewrite Hheld; unfold sr; destruct (deadline s <=? t); [right; left|left]; reflexivity).
+    split; [apply (acts_one t dr (DropEntry (sid sr) (deadline sr))); exact I|].
+    assert (Hents : forall x id, In id (ents_at x (pending (drop_entry (sid sr) (deadline sr) dr))) <->
+                                 In id (ents_at x (pending dr)) /\ (x = deadline sr -> id <> sid sr)).
+    { intros x id. cbn [drop_entry set_pending pending]. rewrite ents_at_remove. destruct (x =? deadline sr) eqn:E.
+      - replace x with (deadline sr) by lia. rewrite (rm_in_iff _ _ _ (Hn (deadline sr))). split; [intros [H1 H2]; split; [exact H1|intros _; exact H2]|intros [H1 H2]; split; [exact H1|exact (H2 eq_refl)]].
+      - split; [intros H; split; [exact H|intros E'; lia]|intros [H _]; exact H]. }
+    split; [|split].
+    + intros k' tk1 s1 Hne Hk' Hs1 Hm1 Hq. apply Hents. split.
+      * apply (He k' tk1 s1 Hk' Hs1 Hm1). destruct Hq as [Hq|Hq]; [left|right; exact Hq].
+        intros [E|E]; [apply Hne; symmetry; exact E|exact (Hq E)].
+      * intros _. exact (Hkeep k' tk1 s1 Hne Hk' Hs1 sr Hsr).
+    + intros d id Hin. apply Hents in Hin. destruct Hin as [Hin Hnot]. apply (Hother d id Hin).
+      intros s0 Hs0 E. destruct (Hown d id Hin s0 Hs0 E) as [E2 Hlt].
+      rewrite Hheld in Hs0. destruct Hs0 as [<-|[<-|[]]].
+      * (* s is still registered, so it is not the one that fired: it is sr *)
+        assert (sr = s) by (unfold sr; replace (deadline s <=? t) with false by lia; reflexivity). apply (Hnot ltac:(congruence)). congruence.
+      * assert (sr = dl) by (unfold sr; replace (deadline s <=? t) with true by lia; reflexivity). apply (Hnot ltac:(congruence)). congruence.
+    + intros d. cbn [drop_entry set_pending pending]. rewrite ents_at_remove. destruct (d =? deadline sr); [apply rm_nodup|]; apply Hn.
 Qed.
 
 (* one poll *)
@@ -262,47 +361,65 @@ Lemma poll_task_minv ts0 t m k r w : MInv ts0 t m (k :: r) w ->
   (forall tk', nth_error (w_tasks w') k = Some tk' -> ~ unspawned tk') /\
   (work (w_tasks w') + 1 <= work (w_tasks w))%nat.
 Proof.
-  intros [Hmail Hbase Hnd Hrun Hmid Htie Hlive]. cbn zeta.
+  intros [Hmail Hbase Hnd Hrun Hmid Htie Hlive Hnwq]. cbn zeta.
   destruct (Hrun k (or_introl eq_refl)) as (tk & Hk & Hmod & Hcase).
   destruct (Forall2_nth _ _ _ _ _ (b_states _ _ _ _ Hbase) Hk) as (tk0 & Hk0 & Hts).
   assert (Hi0 : init_ok tk0).
   { pose proof (b_init _ _ _ _ Hbase) as Hall. rewrite Forall_forall in Hall. apply Hall. eapply nth_error_In; exact Hk0. }
-  (* the common shape of both cases *)
-  assert (Hgen : exists L Sx, Forall frag_step Sx /\ expected tk0 = L ++ exp_run t Sx /\ t_fin tk = false /\
+  (* the common shape of both cases: after the awaited future (if any) has completed, the task runs [Sx] from scratch on driver [drc] *)
+  assert (Hgen : exists L Sx drc, Forall frag_step Sx /\ expected tk0 = L ++ exp_run t Sx /\ t_fin tk = false /\
             t_mod tk = t_mod tk0 /\ t_start tk = t_start tk0 /\ (length Sx + 1 <= wt tk)%nat /\
             run_steps t m k (t_steps tk) (t_cur tk) (t_iv tk) (drv_of w m) (w_nid w) (t_log tk) (w_mail w) =
-            run_steps t m k Sx None None (drv_of w m) (w_nid w) L []).
-  { destruct Hcase as [(Hun & Hst)|(s & Hbl & Hdl)].
+            run_steps t m k Sx None None drc (w_nid w) L [] /\
+            acts t (drv_of w m) drc /\ NwLive drc /\
+            (forall k' tk1 s, k' <> k -> nth_error (w_tasks w) k' = Some tk1 -> In s (held tk1) -> t_mod tk1 = m ->
+               (~ In k' r \/ t < deadline s) -> In (sid s) (ents_at (deadline s) (pending drc))) /\
+            (forall d id, In id (ents_at d (pending drc)) ->
+               exists k' tk1 s, k' <> k /\ nth_error (w_tasks w) k' = Some tk1 /\ In s (held tk1) /\ t_mod tk1 = m /\ sid s = id /\ deadline s = d) /\
+            (forall d, NoDup (ents_at d (pending drc)))).
+  { destruct Hcase as [(Hun & Hst)|(a & Hc & Hwk)].
     - pose proof (tstate_unspawned _ _ Hts Hun) as ->. destruct Hi0 as (I1 & I2 & I3 & I4 & I5 & I6).
-      exists [], (t_steps tk0). rewrite Hmail, I2, I3, I4. repeat split; try assumption; try reflexivity.
-      + unfold expected. rewrite Hst. reflexivity.
-      + unfold wt. rewrite I2, I5. lia.
-    - destruct (tstate_blocked _ _ _ Hts Hi0 Hbl) as (st & rest & H1 & H2 & H3 & H4 & H5 & H6 & H7 & H8).
-      exists (t_log tk ++ [t]), rest. rewrite Hmail, H3, H5, H6. repeat split; try assumption.
-      + rewrite H8, Hdl, <- app_assoc. reflexivity.
-      + unfold wt. rewrite H3. cbn [length]. lia.
-      + apply run_steps_woken. lia. }
-  destruct Hgen as (L & Sx & HS & Hexp & Hfin & Hm0 & Hs0 & Hwt & Hrs).
-  rewrite (run_steps_frag t m k Sx HS) in Hrs. destruct (frag_run t (w_nid w) Sx (drv_of w m)) as [[[o b] n] dr'] eqn:Efr.
-  assert (Hfr : forall x id, In id (ents_at x (pending (drv_of w m))) -> id < w_nid w).
-  { intros x id Hin. destruct (tie_task _ _ _ _ _ _ Htie x id Hin) as (k' & tk' & s' & Hk' & Hbl' & _ & _ & E1 & _).
-    rewrite <- E1. exact (proj1 (b_ids _ _ _ _ Hbase k' tk' s' Hk' Hbl')). }
+      exists [], (t_steps tk0), (drv_of w m). rewrite Hmail, I2, I3, I4.
+      destruct Htie as [He Ht Hn].
+      split; [exact I1|]. split; [unfold expected; rewrite Hst; reflexivity|]. split; [exact I5|]. split; [reflexivity|]. split; [reflexivity|].
+      split; [unfold wt; rewrite I2, I5; lia|]. split; [reflexivity|]. split; [apply acts_refl|]. split; [exact Hlive|].
+      split; [|split; [|exact Hn]].
+      + intros k' tk1 s Hne Hk' Hs Hm1 Hq. apply (He k' tk1 s Hk' Hs Hm1). destruct Hq as [Hq|Hq]; [left|right; exact Hq].
+        intros [E|E]; [apply Hne; symmetry; exact E|exact (Hq E)].
+      + intros d id Hin. destruct (Ht d id Hin) as (k' & tk1 & s & Hk' & Hs & Hm1 & E1 & E2).
+        exists k', tk1, s. repeat split; try assumption. intros ->. rewrite Hk in Hk'. injection Hk' as <-.
+        unfold held in Hs. rewrite I2 in Hs. contradiction.
+    - destruct (tstate_blocked _ _ _ Hts Hi0 Hc) as (st & rest & H1 & H2 & H3 & H4 & H6 & H7 & Hkind & Hh & Hndp & Hheld & H8).
+      destruct (woken_done ts0 (w_tasks w) (w_owner w) (w_nid w) t m k r tk a (drv_of w m) Hbase Hnd Hmid Htie Hk Hmod Hc Hkind Hheld Hh Hndp Hwk)
+        as (Ha & Ge & Gt & Gn).
+      exists (t_log tk ++ aw_rec a), rest, (aw_done t a (drv_of w m)). rewrite Hmail, H3, Hc, H6.
+      split; [exact H4|]. split; [rewrite H8, Hwk, <- app_assoc; reflexivity|]. split; [exact H7|]. split; [exact H1|]. split; [exact H2|].
+      split; [unfold wt; rewrite H3; cbn [length]; lia|]. split; [apply run_steps_woken; assumption|]. split; [exact Ha|].
+      split; [|split; [exact Ge|split; [exact Gt|exact Gn]]].
+      (* next_wakeup was cleared when the task was woken *)
+      intros x Hx. destruct Ha as (ops & _ & Eq). rewrite Eq in Hx. rewrite (proj1 (apply_ops_rest_nw ops _)) in Hx.
+      rewrite (Hnwq k tk a (or_introl eq_refl) Hk Hc) in Hx. discriminate. }
+  destruct Hgen as (L & Sx & drc & HS & Hexp & Hfin & Hm0 & Hs0 & Hwt & Hrs & Hac & Hlc & Ge & Gt & Gn).
+  assert (Hmidc : Mid t drc) by exact (acts_mid _ _ _ Hac Hmid).
+  rewrite (run_steps_frag t m k Sx HS) in Hrs. destruct (frag_run t (w_nid w) Sx drc) as [[[o b] n] dr'] eqn:Efr.
   destruct (poll_task_eq true t m k w tk _ _ _ _ _ _ _ _ Hk Hfin Hrs) as (Hsw & Hfes & Hnow & Hdr & Hoth & Htasks & Hnid & Hown & Hml).
   assert (Hnn : w_nid w <= n).
-  { exact (proj1 (ps_cases _ _ _ _ _ _ _ _ Hmid HS Efr Hfr)). }
+  { refine (proj1 (ps_cases ts0 (w_tasks w) (w_owner w) (w_nid w) drc t m k _ _ _ _ _ Hbase Hmidc Gt HS Efr)). }
   split; [exact Hsw|]. split; [|repeat split; try assumption].
   - constructor.
     + exact Hml.
-    + rewrite Htasks, Hown, Hnid. cbn [sent_by].
-      eapply ps_base; eassumption.
+    + rewrite Htasks, Hown, Hnid. cbn [sent_by]. eapply ps_base; eassumption.
     + inversion Hnd; assumption.
-    + intros k' Hin. rewrite Htasks.
-      eapply ps_runnable; [exact Hnd|exact Hin|exact (Hrun k' (or_intror Hin))].
-    + rewrite Hdr.
-      eapply ps_mid; eassumption.
-    + rewrite Htasks, Hown, Hnid, Hdr. cbn [sent_by].
-      eapply ps_tie; eassumption.
+    + intros k' Hin. rewrite Htasks. eapply ps_runnable; [exact Hnd|exact Hin|exact (Hrun k' (or_intror Hin))].
+    + rewrite Hdr. eapply ps_mid; eassumption.
+    + rewrite Htasks, Hdr. eapply ps_tie; eassumption.
     + rewrite Hdr. eapply ps_live; eassumption.
+    + intros k' tk1 a1 Hin Hk1 Hc1. rewrite Hdr.
+      assert (Hnw' : next_wakeup dr' = next_wakeup drc) by (eapply ps_nw; eassumption).
+      rewrite Hnw'. destruct Hac as (ops & _ & Eq). rewrite Eq, (proj1 (apply_ops_rest_nw ops _)).
+      assert (Hne : k' <> k) by (intros ->; inversion Hnd; contradiction).
+      rewrite Htasks, (nth_set_nth_other _ _ _ _ (fun E => Hne (eq_sym E))) in Hk1.
+      exact (Hnwq k' tk1 a1 (or_intror Hin) Hk1 Hc1).
   - intros k' Hne. rewrite Htasks. apply nth_set_nth_other. intros E; apply Hne; symmetry; exact E.
   - rewrite Htasks. apply length_set_nth.
   - rewrite Hnid. exact Hnn.
@@ -313,7 +430,7 @@ Proof.
     pose proof (work_set_nth (w_tasks w) k tk tk' Hk) as Hw.
     assert (Hns : ~ unspawned tk') by (eapply ps_spawned; eassumption).
     assert (Hwt' : (wt tk' <= length Sx)%nat).
-    { pose proof (frag_run_len t Sx (w_nid w) (drv_of w m)) as Hl. rewrite Efr in Hl. cbn [fst snd] in Hl.
+    { pose proof (frag_run_len t Sx (w_nid w) drc) as Hl. rewrite Efr in Hl. cbn [fst snd] in Hl.
       unfold wt. unfold unspawned in Hns. cbn [tk' t_steps t_cur t_fin] in *.
       destruct (fr_cur b); [lia|]. destruct (match fr_steps b with [] => true | _ :: _ => false end); [lia|].
       exfalso. apply Hns. split; reflexivity. }
